@@ -50,10 +50,15 @@ type errorRequestMessage struct {
 	requestID graphsync.RequestID
 	err       error
 	response  chan error
+	// if set, only the response this subscriber was created for is meant
+	subscriber *subscriber
 }
 
 func (erm *errorRequestMessage) handle(rm *ResponseManager) {
-	err := rm.abortRequest(rm.ctx, erm.requestID, erm.err)
+	var err error = graphsync.RequestNotFoundErr{}
+	if erm.subscriber == nil || rm.isResponseOf(erm.requestID, erm.subscriber) {
+		err = rm.abortRequest(rm.ctx, erm.requestID, erm.err)
+	}
 	select {
 	case <-rm.ctx.Done():
 	case erm.response <- err:
@@ -142,12 +147,15 @@ func (psm *peerStateMessage) handle(rm *ResponseManager) {
 }
 
 type terminateRequestMessage struct {
-	requestID graphsync.RequestID
-	done      chan<- struct{}
+	requestID  graphsync.RequestID
+	done       chan<- struct{}
+	subscriber *subscriber
 }
 
 func (trm *terminateRequestMessage) handle(rm *ResponseManager) {
-	rm.terminateRequest(trm.requestID)
+	if rm.isResponseOf(trm.requestID, trm.subscriber) {
+		rm.terminateRequest(trm.requestID)
+	}
 	select {
 	case <-rm.ctx.Done():
 	case trm.done <- struct{}{}:
